@@ -310,8 +310,9 @@ def _m(op, x, val):
                  ">=": lambda: x >= val}[op]())
 
 
-def e2e_grid():
-    """native: concrete boundary grid end to end through the real Table API with real pyarrow: every API == reference."""
+def e2e_grid(big=False):
+    """native: concrete boundary grid end to end through the real Table API with real pyarrow: every API == reference.
+    big: two single appends of 2100 records each (the writer works in chunks of 1000), a NaN in the middle chunk."""
     import shutil
     import tempfile
 
@@ -343,11 +344,21 @@ def e2e_grid():
             {"k": 6, "c": 1.0, "s": L + "a", "i": 7, "b": True, "d": D(2000, 2, 29), "t": TS(2024, 1, 1, 12, 0, 0, 1751), "f": 0.25},
             {"k": 7, "c": 2.0, "s": L + "z", "i": 7, "b": True, "d": D(2000, 2, 29), "t": TS(2024, 1, 1, 12, 0, 0, 1749), "f": 0.75},
         ]
-        t.append_records(rows[:3])
-        t.append_records(rows[3:6])
-        t.append_records(rows[6:])
+        if big:
+            blank = {"s": None, "i": None, "b": None, "d": None, "t": None, "f": None}
+            xs1 = [0.5] * 1000 + [nan if i == 700 else 0.5 for i in range(1000)] + [0.5] * 100
+            xs2 = [(i % 10) / 10.0 for i in range(1000)] + [nan if i == 500 else 2000.0 + i for i in range(1000)] + [0.25] * 100
+            rows = [dict(blank, k=i, c=x) for i, x in enumerate(xs1)]
+            t.append_records(rows)
+            rows2 = [dict(blank, k=10000 + i, c=x) for i, x in enumerate(xs2)]
+            t.append_records(rows2)
+            rows = rows + rows2
+        else:
+            t.append_records(rows[:3])
+            t.append_records(rows[3:6])
+            t.append_records(rows[6:])
         conds = []
-        lits_by_col = (("c", [0.5, 0.0, float("inf")]), ("s", ["a", "", "é", L + "z", L + "m"]), ("i", [0, 7, 2 ** 53, 2 ** 53 + 1]),
+        lits_by_col = (("c", [0.5, 2500.0, 0.25]),) if big else (("c", [0.5, 0.0, float("inf")]), ("s", ["a", "", "é", L + "z", L + "m"]), ("i", [0, 7, 2 ** 53, 2 ** 53 + 1]),
                        ("d", [D(2024, 1, 1), D(2000, 2, 29), D(1969, 12, 31)]),
                        ("t", [TS(2024, 1, 1, 12, 0, 0, 1750), TS(2024, 1, 1, 12, 0, 0, 1000), TS(1970, 1, 1)]), ("f", [0.5, 0.25, 16777216.0]))
         for col, lits in lits_by_col:
@@ -356,26 +367,27 @@ def e2e_grid():
                     conds.append((col, op, v))
                 conds += [(col, "in", [v]), (col, "in", [v, None]), (col, "not_in", [v]), (col, "not_in", [v, None]), (col, "between", (v, lits[0]))]
             conds += [(col, "in", []), (col, "not_in", []), (col, "is_null", True), (col, "is_not_null", True)]
-        for v in (True, False):
-            conds += [("b", "==", v), ("b", "!=", v), ("b", "in", [v]), ("b", "not_in", [v, None])]
-        conds += [("b", "is_null", True), ("b", "is_not_null", True)]
+        if not big:
+            for v in (True, False):
+                conds += [("b", "==", v), ("b", "!=", v), ("b", "in", [v]), ("b", "not_in", [v, None])]
+            conds += [("b", "is_null", True), ("b", "is_not_null", True)]
         for col, op, v in conds:
             exp = sorted(r["k"] for r in rows if matches(op, r[col], v))
             f = {col: filter_value(op, v)}
-            for cols in (None, ["k"]):
+            for cols in ((["k"],) if big else (None, ["k"])):
                 got = {
                     "scan": sorted(r["k"] for r in t.scan(columns=cols, filter=f)),
                     "scan_noverify": sorted(r["k"] for r in t.scan(columns=cols, filter=f, verify_checksums=False)),
                     "scan_parallel": sorted(r["k"] for r in t.scan(columns=cols, filter=f, parallel=2)),
-                    "scan_batches1": sorted(r["k"] for b in t.scan_batches(batch_size=1, columns=cols, filter=f) for r in b),
-                    "scan_batches_nv": sorted(r["k"] for b in t.scan_batches(batch_size=2, columns=cols, filter=f, verify_checksums=False) for r in b),
+                    "scan_batches1": sorted(r["k"] for b in t.scan_batches(batch_size=700 if big else 1, columns=cols, filter=f) for r in b),
+                    "scan_batches_nv": sorted(r["k"] for b in t.scan_batches(batch_size=999 if big else 2, columns=cols, filter=f, verify_checksums=False) for r in b),
                     "iter_records": sorted(r["k"] for r in t.iter_records(columns=cols, filter=f)),
                 }
                 for api, g in got.items():
                     n += 1
                     if g != exp:
-                        cex = {"harness": "native.e2e_grid", "fn": "vf.props.c12:e2e_grid", "kwargs": {}, "engine": "native",
-                               "message": f"{api}(columns={cols}, filter {col} {op} {v!r}) returned keys {g}, SQL reference {exp}",
+                        cex = {"harness": "native.e2e_grid", "fn": "vf.props.c12:e2e_grid", "kwargs": {"big": big}, "engine": "native",
+                               "message": f"{api}(columns={cols}, filter {col} {op} {v!r}) returned keys {g[:6]}.. ({len(g)}), SQL reference {exp[:6]}.. ({len(exp)})",
                                "signature": f"e2e:{api}:{op}", "replayed": True}
                         return {"status": "violation", "cex": cex, "cexs": [cex], "paths": n, "nontrivial": n, "detail": cex["message"]}
     finally:
@@ -416,6 +428,8 @@ def obligations(tier):
                   bounds="every operator alias, {'c': None}, unknown operators (finite list); shim vs pyarrow.compute grid", weight=1))
     obs.append(Ob("native.e2e_grid", "vf.props.c12:e2e_grid", {}, engine="native", timeout=300,
                   bounds="concrete boundary grid (NULL, NaN, inf, -0.0, '', unicode) x all operators x every API/option, real pyarrow", weight=2))
+    obs.append(Ob("native.e2e_bigfile", "vf.props.c12:e2e_grid", {"big": True}, engine="native", timeout=300,
+                  bounds="two single appends of 2100 records (writer chunks of 1000), NaN in the middle chunk x all operators x every API/option, real pyarrow", weight=2))
     ops = ["==", "!=", "<", ">=", "in", "not_in", "between", "is_null"] if tier == "quick" else ["==", "!=", "<", "<=", ">", ">=", "in", "not_in", "between", "is_null", "is_not_null"]
     for op in ops:
         obs.append(Ob(f"api.{op}", "vf.props.c12:api_agreement", {"op": op, "_must_reach": ["ran"], "_sample_every": 100}, timeout=T * 2,
